@@ -1,7 +1,9 @@
 // E2 harness for tulz::RingBuffer: C04 (bounded-deque behaviour, T=int) and C09 (element lifetimes, T=Tracked).
 #include <tulz/container/RingBuffer.h>
 
+#include <algorithm>
 #include <deque>
+#include <limits>
 #include <memory>
 #include <set>
 #include <string>
@@ -300,8 +302,33 @@ template<typename T, bool OW> void enumerate(bool tracked, int cap, int depth, S
     }
 }
 
+// comparison reports what a bounded deque reports: element-wise ==, whatever the bytes look like (negative zero equals zero, a NaN equals nothing, an element type may ignore a field)
+struct Keyed { int key; int note; bool operator==(const Keyed &o) const { return key == o.key; } };
+template<bool OWA, bool OWB> void equality_semantics() {
+    auto run = [&](auto tag, const char *tn, auto va, auto vb, bool want_equal, int prepops) {
+        using T = decltype(tag);
+        std::string hist = fmt("equality T=%s owa=%d owb=%d case=%s prepops=%d", tn, (int)OWA, (int)OWB, want_equal ? "equal" : "different", prepops);
+        mark(hist); shm->evaluations++; shm->transitions++; shm->nontrivial++;
+        RingBuffer<T, OWA> a(4); RingBuffer<T, OWB> b(4);
+        for (int i = 0; i < prepops; i++) { a.push_back(va); (void)a.pop_front(); }      // moves the head of a: contiguous and wrapped layouts
+        a.push_back(va); a.push_back(va); b.push_back(vb); b.push_back(vb);
+        std::deque<T> da{va, va}, db{vb, vb};
+        bool model = std::equal(da.begin(), da.end(), db.begin(), db.end());
+        if (model != want_equal) violation("harness:equality", "the deque model disagrees with the expectation", hist);
+        if ((a == b) != model) violation("model:equality", fmt("operator== on RingBuffer<%s> says %s where element-wise == says %s (head of the left buffer moved %d times)", tn, (a == b) ? "equal" : "different", model ? "equal" : "different", prepops), hist);
+    };
+    for (int pre : {0, 1, 3}) {
+        run(double{}, "double", 0.0, -0.0, true, pre);
+        run(double{}, "double", std::numeric_limits<double>::quiet_NaN(), std::numeric_limits<double>::quiet_NaN(), false, pre);
+        run(float{}, "float", -0.0f, 0.0f, true, pre);
+        run(Keyed{}, "keyed-struct", Keyed{1, 10}, Keyed{1, 20}, true, pre);
+        run(Keyed{}, "keyed-struct", Keyed{1, 10}, Keyed{2, 10}, false, pre);
+    }
+}
+
 void explore() {
     bool tracked = opt.property == "C09";
+    if (!tracked) { equality_semantics<false, false>(); equality_semantics<true, false>(); equality_semantics<true, true>(); }
     int maxcap = thorough() ? 8 : 6;
     std::set<std::string> seen; Stats st;
     if (tracked) { bfs<Tracked, false>(true, maxcap, seen, st); bfs<Tracked, true>(true, maxcap, seen, st); }
@@ -322,6 +349,7 @@ void explore() {
 }
 
 void replay(const std::string &hist) {
+    if (hist.compare(0, 9, "equality ") == 0) { equality_semantics<false, false>(); equality_semantics<true, false>(); equality_semantics<true, true>(); return; }
     Config c; std::vector<Op> h;
     if (!parse_hist(hist, c, h)) { violation("replay:parse", "cannot parse history " + hist); return; }
     auto go = [&](auto sys) {
